@@ -50,13 +50,14 @@ PROPS = {
         ],
     },
     'C02': {
-        'units': ['unitI', 'unitB', 'unitE'],
-        'obligations': ['I.emit_wasm', 'B.', 'E.'],
+        'units': ['unitI', 'unitB', 'unitE', 'unitD'],
+        'obligations': ['I.emit_wasm', 'B.', 'E.', 'D.data.emit_data_count', 'D.data.count', 'D.elem.emit', 'D.data.emit'],
         'assumptions': ['A-deps', 'A-arena', 'A-std', 'A-iter', 'A-ext', 'A-extract', 'A-verus'],
         'rules': 'as C08, C19, C06 (units I, B, E)',
         'claimed': [
             'Module::emit_wasm (whole real function, unit I): every section emitter is called with the index spaces it reads already complete (types < imports < tables/memories/globals < exports/start/elements < code < data < names), so no get_*_index lookup of an emitted entity can miss',
             'index maps (unit B, real macro text): push assigns the next index once; get returns what push recorded',
+            'data and element emitters (unit D): every live data segment gets an index whether or not a data-count section is written; every element segment gets the next index before its entry is written',
             'GC (unit E): the kept set contains the roots and is closed under "refers to", and exactly the unkept entities are deleted -- nothing that is still referenced is left without an emitted index',
         ],
         'unclaimed': [
@@ -93,23 +94,25 @@ PROPS = {
         ],
     },
     'C20': {
-        'units': ['unitC'],
-        'obligations': ['C.ir.InstrSeqType', 'C.ctx.', 'C.emit.', 'C.ty.'],
+        'units': ['unitC', 'unitD'],
+        'obligations': ['C.ir.InstrSeqType', 'C.ctx.', 'C.emit.', 'C.ty.', 'D.data.emit_data_count', 'D.data.count', 'D.data.emit', 'D.elem.emit'],
         'assumptions': ['A-deps', 'A-std', 'A-extract', 'A-verus'],
         'rules': 'as C03 (unit C)',
         'claimed': [
             'InstrSeqType::existing (real): a block signature that fits the inline MVP form (no params, at most one result) is ALWAYS represented as Simple -- never as a type index --, otherwise an existing live non-entry type is used; ValidationContext push_control* (real) build block types only through it',
             'Emit::start_instr_seq / block_type (real, unit C): Simple(None) -> empty block type, Simple(Some(t)) -> the inline value type, MultiValue(id) -> that type\'s index: the encoding class of every block type is the one parsed',
             'operator arms (C03): call_indirect / memory.size / memory.grow / table and memory immediates are re-emitted with the same table / memory entity (index 0 stays index 0 up to renumbering of imports-first index spaces)',
+            'ModuleData::emit_data_count (whole real function, unit D): the data-count section is written exactly when some live segment is passive or some function uses memory.init / data.drop -- never otherwise --, with the number of live segments; every live segment gets its index either way',
+            'ModuleElements::emit loop body + its nested emit_elem (real, unit D): a function-index item list stays a function-index list, expressions stay expressions of the same reference type; an active segment on table 0 carries no explicit table index (the MVP encoding), any other table its index',
         ],
         'unclaimed': [
-            'data-count section (ModuleData::emit_data_count), element-segment encoding choice (ModuleElements::emit), explicit table index 0 on active segments: bounded stand-in only (not under contract yet)',
+            'that wasm-encoder chooses the flag byte from exactly these arguments (A-deps); memory index 0 on active data segments (wasm-encoder decides the encoding from the index)',
             'that wasm-encoder picks single-byte encodings for index 0 (A-deps)',
         ],
         'standins': [
             {'fn': 'feature escalation end to end', 'argv': ['features'],
              'bound': '55 modules (15 written for this property: MVP modules with offset element segments, data without bulk ops, data-only / imports-only modules, result-typed loops/blocks/ifs with a matching function type declared, memory.size/grow, start + imported-global initialisers; one module needing exactly one proposal for each of bulk-memory (passive elem, passive data, active + data.drop), reference-types, multi-value, sign-extension, saturating conversions, mutable globals; plus the entities and gc corpora) x {emit, gc+emit} x 10 proposals: whatever proposal the input validates without, the output validates without, also all of them together; no data-count section unless bulk-memory is needed and none lost when it is; MVP input => every element segment flag 0; reserved table/memory bytes single zero bytes',
-             'why': 'section emitters for data / elements are not under contract yet; encodings are chosen inside wasm-encoder'},
+             'why': 'encodings are chosen inside wasm-encoder; composition of the loops (A-iter)'},
         ],
     },
     'C11': {
@@ -314,15 +317,17 @@ PROPS = {
             'exports: record keeps name and denotes the entity the input index denotes; emit writes name, kind and the emit-time index',
             'constant expressions (global initialisers): eval / to_wasmencoder_type against the denotation of each operator; lemma: same constant bit for bit / same entity through both maps',
             'imported-vs-local partition: the emit filters keep exactly the records without import back-pointer (predicates lifted and verified)',
+            'data segments: parse body -- the record of THIS segment gets exactly the decoded bytes, mode, memory (through the parse-time map) and offset constant, every other record is untouched, an active segment is registered on its memory and on no other; emit body -- one entry with the same mode, bytes, memory (emit-time map) and offset constant',
+            'element segments, emit side: one entry per segment with the same mode, table, offset constant, item-list kind and items mapped one by one through the emit-time maps',
         ],
         'unclaimed': [
-            'data and element segments, start function, function signatures / type section: not under contract yet; bounded stand-in (entities battery)',
+            'element segments parse side (parse_elements: two nested item loops), start function, function signatures / type section: not under contract yet; bounded stand-in (entities battery)',
             'the iteration protocol of section readers and arena iterators (A-iter)',
         ],
         'standins': [
-            {'fn': 'parse_data / parse_elements / ModuleData::emit / ModuleElements::emit / start / types (whole module structure)', 'argv': ['entities'],
-             'bound': '18 hand-written modules covering imported/local x 32/64-bit x shared x every element/data segment encoding; canonical structure (indices replaced by identity labels) compared before/after the round trip',
-             'why': 'units for data/element segments not built yet'},
+            {'fn': 'parse_elements / start / types and the composition of all loop bodies (whole module structure)', 'argv': ['entities'],
+             'bound': '19 hand-written modules covering imported/local x 32/64-bit x shared x every element/data segment encoding, start functions that move; canonical structure (indices replaced by identity labels) compared before/after the round trip',
+             'why': 'nested iterator loops of parse_elements; A-iter composition'},
         ],
     },
     'C19': {
